@@ -72,7 +72,9 @@ func (s *State) clone() *State {
 	for k, v := range s.mem {
 		n.mem[k] = v
 	}
-	for k, v := range s.facts {
+	for _, k := range sortedFactKeys(s) {
+		v := s.facts[k]
+		_ = v
 		n.facts[k] = v
 	}
 	for k, v := range s.fterm {
@@ -107,7 +109,9 @@ func (s *State) key() string {
 	}
 	sort.Strings(ks)
 	var fs []string
-	for k, v := range s.facts {
+	for _, k := range sortedFactKeys(s) {
+		v := s.facts[k]
+		_ = v
 		fs = append(fs, k+"="+strconv.FormatBool(v))
 	}
 	sort.Strings(fs)
@@ -122,6 +126,17 @@ func (s *State) key() string {
 }
 
 // setFact records the truth of an atom (negations are stripped).
+// sortedFactKeys: the fact keys in a fixed order, so that rules which pick one
+// of several matching atoms are deterministic.
+func sortedFactKeys(s *State) []string {
+	ks := make([]string, 0, len(s.facts))
+	for k := range s.facts {
+		ks = append(ks, k)
+	}
+	sort.Strings(ks)
+	return ks
+}
+
 func (s *State) setFact(c *Term, v bool) {
 	for c.Op == "not" {
 		c = c.Args[0]
@@ -184,7 +199,9 @@ func (s *State) ltByBounds(a, b *Term) int {
 	if oka == okb {
 		return -1
 	}
-	for k, v := range s.facts {
+	for _, k := range sortedFactKeys(s) {
+		v := s.facts[k]
+		_ = v
 		f := s.fterm[k]
 		if f.Op != "lt" {
 			continue
@@ -233,7 +250,9 @@ func (s *State) constOf(t *Term) (*Term, bool) {
 	if t.isConst() {
 		return nil, false
 	}
-	for k, v := range s.facts {
+	for _, k := range sortedFactKeys(s) {
+		v := s.facts[k]
+		_ = v
 		if !v {
 			continue
 		}
@@ -1230,7 +1249,7 @@ func (x *Exec) execLoopUncached(fr *Frame, li *loopInfo, pred *ssa.BasicBlock, s
 			var split []*Term
 			seen := map[string]bool{}
 			for _, b := range backs {
-				for k := range b.facts {
+				for _, k := range sortedFactKeys(b) {
 					t := b.fterm[k]
 					if _, known := st.facts[k]; known || seen[k] || !invariantTerm(t) || st.truth(t) >= 0 {
 						continue
@@ -1401,7 +1420,9 @@ func (x *Exec) renameBack(s *State, cur, all *Term) *State {
 	vac := s.vac[all.key]
 	// facts: F(all) survives only if F(cur) also holds on this path (or all is vacuous)
 	curFacts := map[string]bool{}
-	for k, v := range s.facts {
+	for _, k := range sortedFactKeys(s) {
+		v := s.facts[k]
+		_ = v
 		t := s.fterm[k]
 		if t.contains(cur) {
 			nt := t.subst(cur, all)
@@ -1412,7 +1433,9 @@ func (x *Exec) renameBack(s *State, cur, all *Term) *State {
 			}
 		}
 	}
-	for k, v := range s.facts {
+	for _, k := range sortedFactKeys(s) {
+		v := s.facts[k]
+		_ = v
 		t := s.fterm[k]
 		switch {
 		case t.contains(cur):
@@ -1530,7 +1553,9 @@ func joinStates(h, b *State, all *Term) *State {
 		}
 	}
 	hv, bv := h.vac[all.key], b.vac[all.key]
-	for k, v := range h.facts {
+	for _, k := range sortedFactKeys(h) {
+		v := h.facts[k]
+		_ = v
 		t := h.fterm[k]
 		if v2, ok := b.facts[k]; ok && v2 == v {
 			n.facts[k] = v
@@ -1540,7 +1565,9 @@ func joinStates(h, b *State, all *Term) *State {
 			n.fterm[k] = t
 		}
 	}
-	for k, v := range b.facts {
+	for _, k := range sortedFactKeys(b) {
+		v := b.facts[k]
+		_ = v
 		t := b.fterm[k]
 		if _, ok := h.facts[k]; !ok && hv && t.contains(all) {
 			n.facts[k] = v
